@@ -4,6 +4,7 @@ import json, sys as _sys, os as _os
 _sys.path.insert(0, _os.path.join(_os.path.dirname(_os.path.abspath(__file__)), 'harness'))
 GROUP_FUNCS = {
     'classes': 'get_valid_classes, get_multiplicity', 'simplify': '_simplify, _get_const_period, is_constant, is_repeating',
+    'dicts': 'the base dictionaries of make_empty, get_classification / get_values_and_class',
     'lookup': 'get_meta, meta_valid', 'valid': 'check_valid', 'shapes': 'the result shapes of get_subset / from_sequence',
     'values': '_get_changed_class, _global_slice_subset, the value arithmetic of _copy_slice and of the interleaving loops',
     'insert': '_change_class, the reclassification and dispatch of _insert, _insert_slice, _insert_non_slice, _insert_sample',
